@@ -318,7 +318,21 @@ type PCS struct {
 	// computation, is then decided by these numbers and not by the Go scheduler.
 	Latency  func(req Request, n int) time.Duration
 	InBubble bool
-	mu       sync.Mutex
+	// FailFirst: the first FailFirst[route] requests on a route (since ResetTransient) fail with a transport
+	// error, later ones are answered — a service that succeeds only the second time.
+	FailFirst map[string]int
+	seen      map[string]int
+	mu        sync.Mutex
+}
+
+// ErrTransient is what a request hit by FailFirst returns.
+var ErrTransient = errors.New("simulated PCS: connection reset by peer (transient)")
+
+// ResetTransient starts the FailFirst count afresh (before each verification that is to meet the same fault).
+func (p *PCS) ResetTransient() {
+	p.mu.Lock()
+	p.seen = nil
+	p.mu.Unlock()
 }
 
 // LatencyProfile returns a Latency function: each URL gets a service time from a fixed table, chosen by the
@@ -388,12 +402,23 @@ func (p *PCS) Get(raw string) (map[string][]string, []byte, error) {
 	p.mu.Lock()
 	n := len(p.Log)
 	p.Log = append(p.Log, req)
+	transient := false
+	if p.FailFirst[req.Route] > 0 {
+		if p.seen == nil {
+			p.seen = map[string]int{}
+		}
+		p.seen[req.Route]++
+		transient = p.seen[req.Route] <= p.FailFirst[req.Route]
+	}
 	p.mu.Unlock()
 	if p.OnFetch != nil {
 		p.OnFetch(req)
 	}
 	if p.Latency != nil && p.InBubble {
 		time.Sleep(p.Latency(req, n))
+	}
+	if transient {
+		return nil, nil, ErrTransient
 	}
 	if ep == nil {
 		return nil, nil, ErrNotFound
